@@ -1,4 +1,5 @@
 import CatiiProofs.FromArray
+import CatiiProofs.RoundTrip
 /-!
 # C01 — array → inverted index → array is lossless
 
@@ -9,11 +10,14 @@ select (`buildWhere`: per-value `numpy.where`; `buildScan`: per-row scan), every
 resulting index holds the (mapped) input value.  The statement is about the dense abstraction
 `denseAt` of the index — the array `to_array` materialises.
 
-Partial with respect to the full property: the last step, `toArray idx = the dense array`
-(`numpy.full` then scatter, with the dtype chosen by the regenerated `fit_dtype`), is not yet a
-theorem; it is covered by the correspondence (`to_array` of the real code vs the model on every
-generated case) and by the oracle on the real code.  The theorem is therefore named `…_partial`
-where it stands for the whole round trip.
+`roundtrip` composes it with `to_array`: the array returned (`numpy.full` with the common value, then one
+fancy-index assignment per entry; any dtype the call accepts, including the default chosen by the regenerated
+`fit_dtype`) equals the (mapped) input element for element and in shape.
+
+What stays outside the theorems: that `to_array` *succeeds* (no `OverflowError` for the default dtype; negative
+values) and the `mapping=` argument on the way back — both are decided on the real code by the oracle and tied to
+the model by the correspondence on every generated case; `Arr` is a shape plus flat row-major data, NumPy's
+memory layout and dtype casting are modelled, not verified.
 -/
 namespace Catii.C01
 open Catii.IIdx
@@ -53,6 +57,16 @@ theorem from_array_dense (a : Arr) (o : FromOpts) (idx : IIndex) (w : Bool)
     have hb' := buildScan_built a o.mapping idx.common (cols_nodup a) es hb
     exact built_dense a o.mapping idx.common es hb' a.shape r hr col hcol mv hmv
 
+/-- **C01**: `to_array(from_array(a, counts, common, mapping))` equals the mapped input in shape and in every
+cell, for every option record and whichever construction strategy ran -/
+theorem roundtrip (a : Arr) (o : FromOpts) (idx : IIndex) (w : Bool) (harr : ArrOK a)
+    (h : fromArray a o = .ok (idx, w))
+    (hcounts : ∀ c, o.counts = some c → (c.map (·.1)).Nodup ∧ ∀ v ∈ a.data, v ∈ c.map (·.1))
+    (dt : Option DT) (arr : Arr) (ht : toArray idx none dt = .ok arr) :
+    arr.shape = a.shape ∧ ∀ r < a.nrows, ∀ col ∈ a.cols, ∀ mv,
+      mapVal o.mapping (a.at r col) = .ok mv → arr.at r col = mv :=
+  IIdx.roundtrip a o idx w harr h hcounts dt arr ht
+
 /-- the two strategies cannot be told apart through the dense content (corollary) -/
 theorem strategy_invisible (a : Arr) (o : FromOpts) (i1 i2 : IIndex) (harr : ArrOK a)
     (cm : Int) (es1 es2 : List (Key × Rows))
@@ -80,6 +94,8 @@ repair of finding F01a) and a 2-D array. -/
 example : mapVal (some [(0, 0), (1, 7), (2, 7)]) 1 = .ok 7 ∧ mapVal (some [(0, 0), (1, 7), (2, 7)]) 2 = .ok 7 ∧
     mapVal (some [(0, 0), (1, 7), (2, 7)]) 0 = .ok 0 := by
   refine ⟨rfl, rfl, rfl⟩
+example : (fromArray ⟨[6], [0, 0, 0, 0, 1, 2]⟩ { mapping := some [(0, 0), (1, 7), (2, 7)] }).isOk = true := by
+  decide +kernel
 example : ArrOK ⟨[6], [0, 0, 0, 0, 1, 2]⟩ ∧ ArrOK ⟨[2, 2], [1, 0, 0, 1]⟩ := by
   constructor <;> exact ⟨by decide, by decide⟩
 
